@@ -21,6 +21,8 @@ enum Pattern {
     Never,
     StopsAfter(usize),
     AlwaysOddToken,
+    // answers every PING, but only `ms` after it arrived (always within pong_timeout)
+    Late(u64),
 }
 
 struct Client {
@@ -36,6 +38,8 @@ struct Client {
     my_pings: usize,
     my_pongs: usize,
     stray_pongs: usize,
+    due_pongs: Vec<u128>,   // times at which a late client sends its PONGs
+    fragment_pending: bool, // an unterminated line fragment sits in the server's input buffer
 }
 
 pub fn check(c: &KaCase, st: &mut Stats) -> Result<(), Viol> {
@@ -60,11 +64,21 @@ pub fn check(c: &KaCase, st: &mut Stats) -> Result<(), Viol> {
     let mut log: Vec<String> = vec![format!("ping_timeout={}s pong_timeout={}s step={}ms", p, q, step_ms)];
     let mut clients: Vec<Client> = vec![];
     for i in 0..n {
-        let pattern = match s.pick(8) {
+        let pattern = match s.pick(10) {
             0 | 1 => Pattern::Always,
             2 | 3 => Pattern::Never,
             4 | 5 | 6 => Pattern::StopsAfter(1 + s.pick(5)),
-            _ => Pattern::AlwaysOddToken,
+            7 => Pattern::AlwaysOddToken,
+            _ => {
+                // a delay of whole simulation steps, strictly below pong_timeout (with room for
+                // one step of sampling error)
+                let max_steps = ((q * 1000) / step_ms).saturating_sub(2);
+                if max_steps >= 1 {
+                    Pattern::Late((1 + s.pick(max_steps as usize) as u64) * step_ms)
+                } else {
+                    Pattern::Always
+                }
+            }
         };
         let conn = w.connect();
         let nick = format!("k{}", i);
@@ -83,6 +97,14 @@ pub fn check(c: &KaCase, st: &mut Stats) -> Result<(), Viol> {
             w.drain(conn);
             log.push(format!("t={} {} sent a CAP command after registration", w.now_ms(), nick));
         }
+        // some prompt responders leave the beginning of a line in the server's input buffer and
+        // complete it only when the next PING arrives: pending input must not hold back output
+        let fragment = pattern == Pattern::Always && s.chance(20);
+        if fragment {
+            w.send_bytes(conn, b"PRIV");
+            w.settle();
+            log.push(format!("t={} {} > PRIV (unterminated)", w.now_ms(), nick));
+        }
         log.push(format!("t={} {} registered, pattern {:?}", w.now_ms(), nick, pattern));
         clients.push(Client {
             conn,
@@ -97,6 +119,8 @@ pub fn check(c: &KaCase, st: &mut Stats) -> Result<(), Viol> {
             my_pings: 0,
             my_pongs: 0,
             stray_pongs: 0,
+            due_pongs: vec![],
+            fragment_pending: fragment,
         });
         // stagger registrations a little
         if s.chance(50) {
@@ -120,7 +144,24 @@ pub fn check(c: &KaCase, st: &mut Stats) -> Result<(), Viol> {
             if clients[ci].eof_ms.is_some() {
                 continue;
             }
+            // a late client sends the answers that have become due
+            let due: Vec<u128> = clients[ci].due_pongs.iter().cloned().filter(|t| *t <= now).collect();
+            if !due.is_empty() {
+                clients[ci].due_pongs.retain(|t| *t > now);
+                for _ in &due {
+                    w.send_line(conn, "PONG :LALAL");
+                    clients[ci].answered += 1;
+                    log.push(format!("t={} {} > PONG :LALAL (late)", now, clients[ci].nick));
+                }
+                w.settle();
+            }
             let ls = w.drain(conn);
+            if clients[ci].fragment_pending && ls.iter().any(|l| l.contains(" PING ")) {
+                // complete the pending line first (it becomes a PRIVMSG to itself)
+                w.send_line(conn, &format!("MSG {} :fragment completed", clients[ci].nick));
+                clients[ci].fragment_pending = false;
+                log.push(format!("t={} {} > MSG ... (completes the pending line)", now, clients[ci].nick));
+            }
             if std::env::var("VERIF_DEBUG_C17").is_ok() && now > 101000 {
                 eprintln!("tick t={} c{} lines={:?} horizon_end={}", now, ci, ls, start + horizon_ms);
             }
@@ -133,13 +174,18 @@ pub fn check(c: &KaCase, st: &mut Stats) -> Result<(), Viol> {
                         Pattern::Always | Pattern::AlwaysOddToken => true,
                         Pattern::Never => false,
                         Pattern::StopsAfter(m) => k <= m,
+                        Pattern::Late(ms) => {
+                            let t = w.now_ms();
+                            clients[ci].due_pongs.push(t + ms as u128);
+                            false
+                        }
                     };
                     if answer {
                         let tok = if clients[ci].pattern == Pattern::AlwaysOddToken { ":something else entirely" } else { ":LALAL" };
                         w.send_line(conn, &format!("PONG {}", tok));
                         clients[ci].answered += 1;
                         log.push(format!("t={} {} > PONG {}", now, clients[ci].nick, tok));
-                    } else if clients[ci].first_unanswered.is_none() {
+                    } else if clients[ci].first_unanswered.is_none() && !matches!(clients[ci].pattern, Pattern::Late(_)) {
                         clients[ci].first_unanswered = Some(now);
                     }
                 } else if l.contains(" ERROR") {
@@ -160,6 +206,9 @@ pub fn check(c: &KaCase, st: &mut Stats) -> Result<(), Viol> {
             }
             // an unsolicited PONG while no server PING is outstanding (and none is due within the
             // next moments) answers nothing: it must not count for a later PING
+            if clients[ci].fragment_pending {
+                continue;
+            }
             if clients[ci].first_unanswered.is_none() && clients[ci].answered == clients[ci].pings.len() && s.chance(15) {
                 let next_ping = clients[ci].reg_ms + (clients[ci].pings.len() as u128 + 1) * p as u128 * 1000;
                 if now + 50 < next_ping {
@@ -197,11 +246,16 @@ pub fn check(c: &KaCase, st: &mut Stats) -> Result<(), Viol> {
                                 Pattern::Always | Pattern::AlwaysOddToken => true,
                                 Pattern::Never => false,
                                 Pattern::StopsAfter(m) => k <= m,
+                                Pattern::Late(ms) => {
+                                    let t = w.now_ms();
+                                    clients[ci].due_pongs.push(t + ms as u128);
+                                    false
+                                }
                             };
                             if answer {
                                 w.send_line(conn, "PONG :LALAL");
                                 clients[ci].answered += 1;
-                            } else if clients[ci].first_unanswered.is_none() {
+                            } else if clients[ci].first_unanswered.is_none() && !matches!(clients[ci].pattern, Pattern::Late(_)) {
                                 clients[ci].first_unanswered = Some(w.now_ms());
                             }
                         } else if l.contains(" ERROR") {
@@ -229,11 +283,16 @@ pub fn check(c: &KaCase, st: &mut Stats) -> Result<(), Viol> {
                             Pattern::Always | Pattern::AlwaysOddToken => true,
                             Pattern::Never => false,
                             Pattern::StopsAfter(m) => k <= m,
+                            Pattern::Late(ms) => {
+                                let t = w.now_ms();
+                                clients[ci].due_pongs.push(t + ms as u128);
+                                false
+                            }
                         };
                         if answer {
                             w.send_line(conn, "PONG :LALAL");
                             clients[ci].answered += 1;
-                        } else if clients[ci].first_unanswered.is_none() {
+                        } else if clients[ci].first_unanswered.is_none() && !matches!(clients[ci].pattern, Pattern::Late(_)) {
                             clients[ci].first_unanswered = Some(w.now_ms());
                         }
                     } else if l.contains(" ERROR") {
@@ -257,11 +316,16 @@ pub fn check(c: &KaCase, st: &mut Stats) -> Result<(), Viol> {
                                 Pattern::Always | Pattern::AlwaysOddToken => true,
                                 Pattern::Never => false,
                                 Pattern::StopsAfter(m) => k <= m,
+                                Pattern::Late(ms) => {
+                                    let t = w.now_ms();
+                                    clients[ci].due_pongs.push(t + ms as u128);
+                                    false
+                                }
                             };
                             if answer {
                                 w.send_line(conn, "PONG :LALAL");
                                 clients[ci].answered += 1;
-                            } else if clients[ci].first_unanswered.is_none() {
+                            } else if clients[ci].first_unanswered.is_none() && !matches!(clients[ci].pattern, Pattern::Late(_)) {
                                 clients[ci].first_unanswered = Some(w.now_ms());
                             }
                         } else if l.contains(" ERROR") {
@@ -277,7 +341,7 @@ pub fn check(c: &KaCase, st: &mut Stats) -> Result<(), Viol> {
     for cl in &clients {
         let pat = format!("{:?}", cl.pattern);
         let class = match cl.pattern {
-            Pattern::Always | Pattern::AlwaysOddToken => "responder",
+            Pattern::Always | Pattern::AlwaysOddToken | Pattern::Late(_) => "responder",
             Pattern::Never => "silent",
             Pattern::StopsAfter(_) => "stops",
         };
